@@ -1,4 +1,5 @@
 import Proofs.Covariance
+import Proofs.Pipeline
 /-!
 # C09 — peak- and trough-centred analyses are mirror images
 
@@ -10,6 +11,12 @@ branches give on the un-renamed table and `−x`; hence identical burst features
 Kernels: `amp(−x) = amp(x)`, `dual(−x) = dual(x)` (E5).
 -/
 namespace Bycycle
+
+/-- the whole consistency-method analysis: trough-centred on `x` = mirror of peak-centred on `−x`
+(sample indices, burst features and labels identical, shape columns through the generated renaming / flips). -/
+theorem C09_mirror (x : List Rat) (pad : Nat) (b : List Bool) (amp : List Rat) (bd : Int) (th : CycThresh) :
+    pipelineCycles .trough x pad b amp bd th = (pipelineCycles .peak (negSig x) pad b amp bd th).map PipeOut.mirror :=
+  pipeline_mirror x pad b amp bd th
 
 theorem C09_shape (x amp : List Rat) (rows : List SampleRow) :
     shapeFeatures .trough (negSig x) amp rows =
